@@ -44,11 +44,22 @@ Proof.
   destruct c; [| |congruence]; simpl in K; split; bundle K.
 Qed.
 
-Lemma no_early_strong_witness :
-  forall async,
-    witness (sys_1 skel Reader async) (inv_no_early_strong (sys_1 skel Reader async)) b11_read_labels /\
-    witness (sys_1 skel Writer async) (inv_no_early_strong (sys_1 skel Writer async)) b11_write_labels.
-Proof. intro a; split; apply found_witness; [apply read_strong_no_early_found | apply write_strong_no_early_found]. Qed.
+Lemma no_early_strong :
+  forall c async st, c <> Accepter ->
+    (sreach (sys_tm skel c async) st -> inv_no_early_strong (sys_tm skel c async) st = true) /\
+    (sreach (sys_1 skel c async) st -> inv_no_early_strong (sys_1 skel c async) st = true) /\
+    (sreach (sys_extend_n skel c 2 async) st -> inv_no_early_strong (sys_extend_n skel c 2 async) st = true).
+Proof.
+  intros c a st Hc.
+  assert (K1 : scheck (sys_tm skel c a) (strong_tm_inv (sys_tm skel c a)) = true)
+    by (destruct c; [apply read_strong_tm_checked | apply write_strong_tm_checked | congruence]).
+  assert (K2 : scheck (sys_1 skel c a) (strong_one_inv c (sys_1 skel c a)) = true)
+    by (destruct c; [apply read_strong_one_checked | apply write_strong_one_checked | congruence]).
+  assert (K3 : scheck (sys_extend_n skel c 2 a) (strong_extend_inv (sys_extend_n skel c 2 a)) = true)
+    by (destruct c; [apply read_extend_checked | apply write_extend_checked | congruence]).
+  unfold strong_tm_inv in K1. unfold strong_one_inv in K2. unfold strong_extend_inv in K3.
+  repeat split; intro H; [bundle K1 | bundle K2 | bundle K3].
+Qed.
 
 (* ---- deadline changes ---- *)
 Lemma deadline_rearm_partial :
@@ -61,29 +72,22 @@ Proof.
   repeat split; bundle K.
 Qed.
 
-Lemma none_then_set_witness :
-  forall async,
-    witness (sys_none_then_set skel Reader async) (inv_expiry_wakes (sys_none_then_set skel Reader async)) f12_read_labels /\
-    witness (sys_none_then_set skel Writer async) (inv_expiry_wakes (sys_none_then_set skel Writer async)) f12_write_labels.
-Proof. intro a; split; apply found_witness; [apply read_none_then_set_found | apply write_none_then_set_found]. Qed.
-
-Lemma set_zero_set_witness :
-  forall async,
-    witness (sys_set_zero_set skel Reader async) (inv_expiry_wakes_timer (sys_set_zero_set skel Reader async)) f11_read_labels /\
-    witness (sys_set_zero_set skel Writer async) (inv_expiry_wakes_timer (sys_set_zero_set skel Writer async)) f11_write_labels.
-Proof. intro a; split; apply found_witness; [apply read_set_zero_set_found | apply write_set_zero_set_found]. Qed.
+Lemma deadline_change_seen_rw :
+  forall c async st, c <> Accepter -> sreach (sys_1 skel c async) st ->
+    inv_deadline_seen (sys_1 skel c async) st = true /\
+    inv_expiry_wakes (sys_1 skel c async) st = true.
+Proof.
+  intros c a st Hc H.
+  assert (K : scheck (sys_1 skel c a) (fixed_one_inv c (sys_1 skel c a)) = true)
+    by (destruct c; [apply read_full_checked | apply write_full_checked | congruence]).
+  unfold fixed_one_inv in K. split; bundle K.
+Qed.
 
 Lemma accept_deadline_witness :
   forall async,
     witness (sys_none_then_set skel Accepter async) (inv_expiry_wakes (sys_none_then_set skel Accepter async)) f10_labels /\
     witness (sys_1 skel Accepter async) (inv_cleared (sys_1 skel Accepter async)) f10_cleared_labels.
 Proof. intro a; split; apply found_witness; [apply accept_deadline_found | apply accept_cleared_found]. Qed.
-
-Lemma extend_multi_witness :
-  forall async,
-    witness (sys_extend_n skel Reader 2 async) (inv_no_early_quiet (sys_extend_n skel Reader 2 async)) extend_read_labels /\
-    witness (sys_extend_n skel Writer 2 async) (inv_no_early_quiet (sys_extend_n skel Writer 2 async)) extend_write_labels.
-Proof. intro a; split; apply found_witness; [apply read_extend_found | apply write_extend_found]. Qed.
 
 (* expiry_wakes follows from deadline_seen on DPast, so a refutation of the former refutes the
    full deadline-change statement *)
@@ -168,11 +172,14 @@ Proof.
   unfold n_inv in K2, K3. simpl in K2, K3. split; intro H; [bundle K2 | bundle K3].
 Qed.
 
-Lemma multi_reader_witness :
-  forall async,
-    witness (sys_n skel Reader 2 async) (inv_multi_peek (sys_n skel Reader 2 async)) f4_labels /\
-    witness (sys_n skel Reader 2 async) (inv_multi (sys_n skel Reader 2 async)) f4_short_labels.
-Proof. intro a; split; apply found_witness; [apply read_multi_found | apply read_multi_short_found]. Qed.
+Lemma multi_reader :
+  forall async st,
+    (sreach (sys_n skel Reader 2 async) st -> inv_multi (sys_n skel Reader 2 async) st = true) /\
+    (sreach (sys_n skel Reader 3 async) st -> inv_multi (sys_n skel Reader 3 async) st = true).
+Proof.
+  intros a st. pose proof (read_2_full_checked a) as K2. pose proof (read_3_full_checked a) as K3.
+  unfold fixed_n_inv in K2, K3. split; intro H; [bundle K2 | bundle K3].
+Qed.
 
 (* ---- the repairs ---- *)
 Lemma fixed_all2 :
